@@ -102,6 +102,7 @@ type Out struct {
 	sum     Summary
 	hashes  map[string]bool
 	counter map[string]int
+	pending []pendingCase
 }
 
 func NewOut(dir, prop, tier string, seed uint64) *Out {
@@ -128,6 +129,57 @@ func (o *Out) Case(id string, canon string, nontrivial bool, replay interface{})
 	if len(o.sum.Samples) < 3 {
 		o.sum.Samples = append(o.sum.Samples, replay)
 	}
+}
+
+type pendingCase struct {
+	coq        string
+	nontrivial bool
+	replay     interface{}
+}
+
+// AddCase queues one case; FlushCases later spreads the queued cases over balanced shards.
+func (o *Out) AddCase(coq string, nontrivial bool, replay interface{}) {
+	o.pending = append(o.pending, pendingCase{coq, nontrivial, replay})
+}
+
+// FlushCases writes the queued cases as `shards` files of roughly equal size (greedy by length)
+// and registers each case under the id "<prefix>_<shard>/<index>".
+func (o *Out) FlushCases(prefix, requires, casesType, mismatchFn string, shards int) {
+	if len(o.pending) == 0 {
+		return
+	}
+	if shards > len(o.pending) {
+		shards = len(o.pending)
+	}
+	order := make([]int, len(o.pending))
+	for i := range order {
+		order[i] = i
+	}
+	sort.SliceStable(order, func(a, b int) bool { return len(o.pending[order[a]].coq) > len(o.pending[order[b]].coq) })
+	bins := make([][]int, shards)
+	sizes := make([]int, shards)
+	for _, i := range order {
+		best := 0
+		for b := 1; b < shards; b++ {
+			if sizes[b] < sizes[best] {
+				best = b
+			}
+		}
+		bins[best] = append(bins[best], i)
+		sizes[best] += len(o.pending[i].coq) + 200
+	}
+	for b, bin := range bins {
+		sort.Ints(bin)
+		name := fmt.Sprintf("%s_%03d", prefix, b)
+		var items []string
+		for k, i := range bin {
+			pc := o.pending[i]
+			o.Case(fmt.Sprintf("%s/%d", name, k), pc.coq, pc.nontrivial, pc.replay)
+			items = append(items, pc.coq)
+		}
+		o.WriteCases(name, requires, casesType, items, mismatchFn)
+	}
+	o.pending = nil
 }
 
 func (o *Out) Fail(f MonitorFailure) { o.sum.Failures = append(o.sum.Failures, f) }
